@@ -658,6 +658,11 @@ impl AsyncArrayPartialDecoderTraits for AsyncShardingPartialDecoder {
                         )?;
                     }
                     unsafe { shard.set_len(shard_size) };
+                    #[cfg(zarrs_verif)]
+                    crate::storage::verif_hooks::emit(
+                        "view.publish",
+                        &[shard.as_ptr() as u64, shard.len() as u64],
+                    );
                     out.push(ArrayBytes::from(shard));
                 }
             }
